@@ -146,12 +146,29 @@ def strip_comments(src: str) -> str:
     return "".join(out)
 
 
-def source_scan():
-    hits = []
-    files = list((LEAN / "SciVerif").rglob("*.lean")) + list((LEAN / "Drivers").rglob("*.lean"))
-    for f in files:
+def import_closure(roots):
+    """Files of this workspace reachable through `import` lines from the given modules."""
+    seen, todo, files = set(), list(roots), []
+    while todo:
+        m = todo.pop()
+        if m in seen:
+            continue
+        seen.add(m)
+        f = LEAN / (m.replace(".", "/") + ".lean")
         if not f.exists():
             continue
+        files.append(f)
+        for ln in f.read_text().splitlines():
+            mm = re.match(r"^\s*(?:public\s+)?import\s+(?:all\s+)?([A-Za-z0-9_.]+)", ln)
+            if mm and (mm.group(1).startswith("SciVerif.") or mm.group(1).startswith("Drivers.")):
+                todo.append(mm.group(1))
+    return files
+
+
+def source_scan(roots):
+    """Forbidden constructs in the import closure of this property's proofs and driver."""
+    hits = []
+    for f in import_closure(roots):
         for n, ln in enumerate(strip_comments(f.read_text()).splitlines(), 1):
             if FORBIDDEN.search(ln):
                 hits.append("%s:%d: %s" % (f.relative_to(LEAN), n, ln.strip()))
@@ -354,7 +371,7 @@ def _check(ctx, mod):
         names = theorem_names(props_file)
         extra_obl = getattr(mod, "EXTRA_OBLIGATIONS", [])
         ctx.obligations = names + list(extra_obl)
-        hits = source_scan()
+        hits = source_scan([props_module, "Drivers.%s" % prop] + extra_modules)
         if hits:
             print("AUDIT-FAILURE: forbidden constructs:\n" + "\n".join(hits))
             return 2
